@@ -13,6 +13,7 @@ func init() {
 	commands["array-run"] = cmdArrayRun
 	commands["map-run"] = cmdMapRun
 	commands["multirun"] = cmdMultiRun
+	commands["nested-run"] = cmdNestedRun
 }
 
 func main() {
